@@ -2,6 +2,8 @@
 //! `VLQDecoder`, row decoder) is independent of the sizes of the buffers `fill_buf` returns.
 //!
 //!   C14 avro <batch_size> <file-hex> <chunk sizes> <header_len>
+//!   C14 avrod <alg r|c> <batch_size> <bytes-hex> <chunk sizes>   streaming `Decoder` (single-object /
+//!     Confluent framing, two registered writer schemas) driven by the documented rolling-buffer loop
 //!   C14 flight <frames hdrhex:bodyhex,…> <pending polls before each frame> <ipc chunk sizes>
 //!     Flight decoder = IPC messages per frame: the frames are decoded by `FlightRecordBatchStream`
 //!     from a ready stream, from a stream that returns `Pending` the given number of times before
@@ -15,7 +17,8 @@
 //! `rows=<total> r=ok` or `r=ERR`.
 use arrow_array::{ArrayRef, Int64Array, RecordBatch, StringArray};
 use arrow_avro::reader::{ReaderBuilder, read_header_info};
-use arrow_avro::writer::AvroWriter;
+use arrow_avro::compression::CompressionCodec;
+use arrow_avro::writer::format::AvroOcfFormat;
 use arrow_schema::{DataType, Field, Schema};
 use std::io::{BufRead, Read};
 use std::sync::Arc;
@@ -104,6 +107,9 @@ fn run_case(line: &str) -> (String, Vec<(String, String)>) {
     if t[1] == "flight" {
         return run_flight(&t);
     }
+    if t[1] == "avrod" {
+        return run_avrod(&t);
+    }
     if t[1] != "avro" {
         return ("bad-op".into(), fails);
     }
@@ -170,8 +176,11 @@ fn run_case(line: &str) -> (String, Vec<(String, String)>) {
 fn gen_case(rng: &mut Rng) -> (String, String) {
     let schema = Schema::new(vec![Field::new("id", DataType::Int64, false), Field::new("s", DataType::Utf8, false)]);
     let nb = *rng.pick(&[0usize, 1, 2, 3, 4]);
-    let mut w = AvroWriter::new(Vec::<u8>::new(), schema.clone()).unwrap();
     let mut tags = vec!["op:avro".to_string()];
+    // block payload codecs: the decompressed block is what the row decoder sees
+    let codec = *rng.pick(&[None, None, Some(CompressionCodec::Deflate), Some(CompressionCodec::Snappy), Some(CompressionCodec::ZStandard)]);
+    tags.push(format!("codec:{:?}", codec).replace(['(', ')'], ""));
+    let mut w = WriterBuilder::new(schema.clone()).with_compression(codec).build::<_, AvroOcfFormat>(Vec::<u8>::new()).unwrap();
     for _ in 0..nb {
         let n = *rng.pick(&[1usize, 1, 2, 3, 7, 70]);
         let ids: Vec<i64> = (0..n).map(|_| rng.pick_or(&[0, -1, 63, 64, -65, 8191, 8192, i64::MAX, i64::MIN], -100000, 100000)).collect();
@@ -252,10 +261,304 @@ fn gen_case(rng: &mut Rng) -> (String, String) {
     (format!("C14 avro {} {} {} {}", bs, hex(&data), show_list(&sizes), hdr), tags.join(" "))
 }
 
+// ------------------------------------------------------------------- Avro streaming `Decoder`
+
+use arrow_avro::schema::{AvroSchema, Fingerprint, FingerprintAlgorithm, FingerprintStrategy, SCHEMA_METADATA_KEY, SchemaStore};
+use arrow_avro::writer::{WriterBuilder, format::AvroSoeFormat};
+
+const SCHEMA_A: &str = r#"{"type":"record","name":"A","fields":[{"name":"id","type":"long"},{"name":"s","type":"string"}]}"#;
+const SCHEMA_B: &str = r#"{"type":"record","name":"B","fields":[{"name":"x","type":"long"}]}"#;
+
+fn avrod_store(alg: &str) -> SchemaStore {
+    if alg == "c" {
+        let mut st = SchemaStore::new_with_type(FingerprintAlgorithm::Id);
+        st.set(Fingerprint::Id(7), AvroSchema::new(SCHEMA_A.to_string())).unwrap();
+        st.set(Fingerprint::Id(300), AvroSchema::new(SCHEMA_B.to_string())).unwrap();
+        st
+    } else {
+        let mut st = SchemaStore::new();
+        st.register(AvroSchema::new(SCHEMA_A.to_string())).unwrap();
+        st.register(AvroSchema::new(SCHEMA_B.to_string())).unwrap();
+        st
+    }
+}
+
+/// the documented loop: keep a rolling buffer, `decode`, drop what was consumed, `flush` when the
+/// batch is full; a final `flush` at the end of input
+fn avrod_push(alg: &str, bs: usize, chunks: &[&[u8]]) -> Outcome {
+    let r = std::panic::catch_unwind(std::panic::AssertUnwindSafe(|| {
+        let mut d = match ReaderBuilder::new().with_writer_schema_store(avrod_store(alg)).with_batch_size(bs).build_decoder() {
+            Ok(d) => d,
+            Err(_) => return Outcome { batches: vec![], verdict: "ERR:build".into() },
+        };
+        let mut batches = vec![];
+        let mut buf: Vec<u8> = vec![];
+        for c in chunks {
+            buf.extend_from_slice(c);
+            loop {
+                let n = match d.decode(&buf) {
+                    Ok(n) => n,
+                    Err(e) => {
+                        if std::env::var("VERIF_LOUD").is_ok() {
+                            eprintln!("avrod decode err: {e}");
+                        }
+                        return Outcome { batches, verdict: "ERR:decode".into() };
+                    }
+                };
+                buf.drain(..n);
+                if d.batch_is_full() {
+                    match d.flush() {
+                        Ok(Some(b)) => batches.push(b),
+                        Ok(None) => {}
+                        Err(e) => {
+                            if std::env::var("VERIF_LOUD").is_ok() {
+                                eprintln!("avrod flush err: {e}");
+                            }
+                            return Outcome { batches, verdict: "ERR:flush".into() };
+                        }
+                    }
+                    if buf.is_empty() {
+                        break;
+                    }
+                } else {
+                    break; // needs more bytes (or everything was consumed)
+                }
+            }
+        }
+        match d.flush() {
+            Ok(Some(b)) => batches.push(b),
+            Ok(None) => {}
+            Err(e) => {
+                if std::env::var("VERIF_LOUD").is_ok() {
+                    eprintln!("avrod final flush err: {e}");
+                }
+                return Outcome { batches, verdict: "ERR:flush".into() };
+            }
+        }
+        let verdict = if buf.is_empty() { "ok".to_string() } else { format!("partial:{}", buf.len()) };
+        Outcome { batches, verdict }
+    }));
+    r.unwrap_or_else(|_| Outcome { batches: vec![], verdict: "PANIC".into() })
+}
+
+/// Structural classification for the streaming Avro `Decoder`: walk the framed rows of the two
+/// known schemas and report where the first cumulative chunk end that falls strictly inside a row
+/// body lies: `Some("varint")` = inside / right before a varint of the body (the row decoder's
+/// `read_vlq` reports "bad varint" instead of "need more data"), `Some("payload")` = inside the
+/// string bytes (earlier fields of the row stay appended to their builders).
+fn avrod_first_cut_in_row(alg: &str, data: &[u8], cuts: &[usize]) -> Option<&'static str> {
+    let plen = if alg == "c" { 5 } else { 10 };
+    let fa = avrod_frames(alg, 0, &[(0, String::new())]);
+    let fb = avrod_frames(alg, 1, &[(0, String::new())]);
+    let varint_len = |p: usize| -> Option<usize> {
+        let mut i = p;
+        while i < data.len() && i - p < 10 {
+            if data[i] & 0x80 == 0 {
+                return Some(i + 1 - p);
+            }
+            i += 1;
+        }
+        None
+    };
+    // (start, end, kind) regions of row bodies
+    let mut regions: Vec<(usize, usize, &'static str)> = vec![];
+    let mut p = 0;
+    while p + plen <= data.len() {
+        let which = if data[p..p + plen] == fa[..plen] {
+            0
+        } else if data[p..p + plen] == fb[..plen] {
+            1
+        } else {
+            break;
+        };
+        let body = p + plen;
+        let Some(l1) = varint_len(body) else {
+            regions.push((body, data.len() + 1, "varint"));
+            break;
+        };
+        let mut end = body + l1;
+        regions.push((body, end, "varint"));
+        if which == 0 {
+            let Some(l2) = varint_len(end) else {
+                regions.push((end, data.len() + 1, "varint"));
+                break;
+            };
+            // string length: zig-zag long
+            let mut v: u64 = 0;
+            for k in 0..l2 {
+                v |= ((data[end + k] & 0x7f) as u64) << (7 * k);
+            }
+            let slen = (v >> 1) as usize;
+            regions.push((end, end + l2, "varint"));
+            regions.push((end + l2, end + l2 + slen, "payload"));
+            end = end + l2 + slen;
+        }
+        p = end;
+    }
+    // cumulative cut positions in order; a cut at the very start of a body is harmless
+    for &c in cuts {
+        for (i, &(a, b, kind)) in regions.iter().enumerate() {
+            let body_start = i == 0 || regions[i - 1].1 != a || regions[i - 1].2 == "payload" && false;
+            let _ = body_start;
+            if c > a && c < b {
+                return Some(kind);
+            }
+            // exactly between two fields of one row (after the id, before the string length)
+            if c == a && i > 0 && regions[i - 1].1 == a && regions[i - 1].2 == "varint" && kind == "varint" && c < data.len() {
+                return Some("varint");
+            }
+            if c == a && i > 0 && regions[i - 1].1 == a && kind == "payload" && b > a && c < data.len() {
+                return Some("payload");
+            }
+        }
+    }
+    None
+}
+
+fn cum_cuts(sizes: &[usize]) -> Vec<usize> {
+    let mut v = vec![];
+    let mut p = 0;
+    for &s in sizes {
+        p += s;
+        v.push(p);
+    }
+    v
+}
+
+fn run_avrod(t: &[&str]) -> (String, Vec<(String, String)>) {
+    let (alg, bs, data, sizes) = (t[2], t[3].parse::<usize>().unwrap(), unhex(t[4]), parse_list::<usize>(t[5]));
+    let mut fails = vec![];
+    let given = avrod_push(alg, bs, &split(&data, &sizes));
+    let single = avrod_push(alg, bs, &[&data]);
+    let mut cmp = |name: String, o: &Outcome, cuts: Vec<usize>| {
+        if *o != single {
+            let mut tag = "oracle:chunk-dep".to_string();
+            match avrod_first_cut_in_row(alg, &data, &cuts) {
+                Some("varint") => tag.push_str(" finding:avrod-varint-split"),
+                Some(_) => tag.push_str(" finding:avrod-partial-row"),
+                None => {}
+            }
+            fails.push((format!("{} {} != single-chunk {}", name, o.short(), single.short()), tag));
+        }
+    };
+    cmp("chunked".into(), &given, cum_cuts(&sizes));
+    cmp("bytewise".into(), &avrod_push(alg, bs, &data.chunks(1).collect::<Vec<_>>()), (1..=data.len()).collect());
+    for i in 0..=data.len() {
+        let o = avrod_push(alg, bs, &[&data[..i], &data[i..]]);
+        if o != single {
+            cmp(format!("split@{}", i), &o, vec![i]);
+            break;
+        }
+    }
+    if data.len() <= 13 && !data.is_empty() {
+        for mask in 0u32..(1 << (data.len() - 1)) {
+            let mut sz = vec![];
+            let mut cur = 1;
+            for i in 0..data.len() - 1 {
+                if mask >> i & 1 == 1 {
+                    sz.push(cur);
+                    cur = 1;
+                } else {
+                    cur += 1;
+                }
+            }
+            sz.push(cur);
+            let o = avrod_push(alg, bs, &split(&data, &sz));
+            if o != single {
+                cmp(format!("partition {}", show_list(&sz)), &o, cum_cuts(&sz));
+                break;
+            }
+        }
+    }
+    for b in &single.batches {
+        if b.num_rows() > bs {
+            fails.push((format!("batch of {} rows > batch_size {}", b.num_rows(), bs), "oracle:batch-size".into()));
+        }
+    }
+    (given.short(), fails)
+}
+
+/// single-object / Confluent framed rows written by the real writer
+fn avrod_frames(alg: &str, which: u8, rows: &[(i64, String)]) -> Vec<u8> {
+    let (json, fields): (&str, Vec<Field>) = if which == 0 {
+        (SCHEMA_A, vec![Field::new("id", DataType::Int64, false), Field::new("s", DataType::Utf8, false)])
+    } else {
+        (SCHEMA_B, vec![Field::new("x", DataType::Int64, false)])
+    };
+    let mut md = std::collections::HashMap::new();
+    md.insert(SCHEMA_METADATA_KEY.to_string(), json.to_string());
+    let schema = Schema::new_with_metadata(fields, md);
+    let mut cols: Vec<ArrayRef> = vec![Arc::new(Int64Array::from(rows.iter().map(|r| r.0).collect::<Vec<_>>()))];
+    if which == 0 {
+        cols.push(Arc::new(StringArray::from(rows.iter().map(|r| r.1.clone()).collect::<Vec<_>>())));
+    }
+    let batch = RecordBatch::try_new(Arc::new(schema.clone()), cols).unwrap();
+    let strat = if alg == "c" { FingerprintStrategy::Id(if which == 0 { 7 } else { 300 }) } else { FingerprintStrategy::Rabin };
+    let mut w = WriterBuilder::new(schema).with_fingerprint_strategy(strat).build::<_, AvroSoeFormat>(Vec::new()).unwrap();
+    w.write(&batch).unwrap();
+    w.finish().unwrap();
+    w.into_inner()
+}
+
+fn gen_avrod(rng: &mut Rng, fixed: Option<usize>) -> (String, String) {
+    let alg = if fixed.map_or(rng.bool(), |k| k % 2 == 0) { "r" } else { "c" };
+    let mut tags = vec!["op:avrod".to_string(), format!("alg:{}", alg)];
+    let mut data = vec![];
+    let segs = match fixed {
+        Some(k) => 1 + (k / 2) % 3,
+        None => rng.usize(4),
+    };
+    let mut which = (fixed.unwrap_or(0) / 6 % 2) as u8;
+    for _ in 0..segs {
+        let n = *rng.pick(&[1usize, 1, 2, 3, 6]);
+        let rows: Vec<(i64, String)> = (0..n)
+            .map(|_| (rng.pick_or(&[0, -1, 63, 64, -65, 8191, 8192, i64::MAX, i64::MIN], -1000, 1000), "z".repeat(*rng.pick(&[0usize, 1, 5, 63, 64, 130]))))
+            .collect();
+        data.extend(avrod_frames(alg, which, &rows));
+        if rng.bool() {
+            which ^= 1;
+            tags.push("schema-switch".into());
+        }
+    }
+    match rng.below(8) {
+        0 if !data.is_empty() => {
+            let cut = rng.usize(data.len());
+            data.truncate(cut);
+            tags.push("mut:truncated".into());
+        }
+        1 if !data.is_empty() => {
+            let i = rng.usize(data.len().min(12));
+            data[i] ^= 0x20;
+            tags.push("mut:prefix-corrupt".into());
+        }
+        _ => {}
+    }
+    let bs = *rng.pick(&[1usize, 2, 3, 5, 1024]);
+    let n = data.len();
+    let mut cuts: Vec<usize> = (0..rng.usize(7)).map(|_| rng.usize(n + 1)).collect();
+    cuts.sort();
+    let mut sizes = vec![];
+    let mut p = 0;
+    for c in cuts {
+        sizes.push(c - p);
+        p = c;
+    }
+    sizes.push(n - p);
+    if sizes.iter().filter(|&&s| s > 0).count() >= 2 {
+        tags.push("nt".into());
+    }
+    if fixed.is_some() {
+        tags.push("fixed-block".into());
+    }
+    tags.push(format!("bs:{}", if bs > 5 { "large".to_string() } else { bs.to_string() }));
+    (format!("C14 avrod {} {} {} {}", alg, bs, hex(&data), show_list(&sizes)), tags.join(" "))
+}
+
 // ---------------------------------------------------------------------------------------- Flight
 
 use arrow_flight::FlightData;
-use arrow_flight::decode::FlightRecordBatchStream;
+use arrow_flight::decode::{DecodedPayload, FlightDataDecoder, FlightRecordBatchStream};
+use arrow_flight::encode::DictionaryHandling;
 use arrow_flight::encode::FlightDataEncoderBuilder;
 use arrow_flight::error::FlightError;
 use futures::{Stream, StreamExt, TryStreamExt};
@@ -305,6 +608,39 @@ fn flight_decode(frames: &[FlightData], pend: &[usize]) -> Outcome {
         Outcome { batches, verdict }
     }));
     r.unwrap_or_else(|_| Outcome { batches: vec![], verdict: "PANIC".into() })
+}
+
+/// the lower-level entry point: `FlightDataDecoder` yields one `DecodedPayload` per frame
+fn flight_decode_raw(frames: &[FlightData], pend: &[usize]) -> (Vec<String>, Outcome) {
+    let frames = frames.to_vec();
+    let pend: VecDeque<usize> = (0..=frames.len()).map(|i| pend.get(i).copied().unwrap_or(0)).collect();
+    let r = std::panic::catch_unwind(std::panic::AssertUnwindSafe(move || {
+        let mut st = FlightDataDecoder::new(Lazy { items: frames.into(), pend });
+        let mut kinds = vec![];
+        let mut batches = vec![];
+        let mut verdict = "ok".to_string();
+        futures::executor::block_on(async {
+            loop {
+                match st.next().await {
+                    Some(Ok(d)) => match d.payload {
+                        DecodedPayload::None => kinds.push("N".to_string()),
+                        DecodedPayload::Schema(_) => kinds.push("S".to_string()),
+                        DecodedPayload::RecordBatch(b) => {
+                            kinds.push("B".to_string());
+                            batches.push(b);
+                        }
+                    },
+                    Some(Err(_)) => {
+                        verdict = "ERR".into();
+                        break;
+                    }
+                    None => break,
+                }
+            }
+        });
+        (kinds, Outcome { batches, verdict })
+    }));
+    r.unwrap_or_else(|_| (vec![], Outcome { batches: vec![], verdict: "PANIC".into() }))
 }
 
 /// the same messages as an IPC stream through the push `StreamDecoder`
@@ -401,6 +737,15 @@ fn run_flight(t: &[&str]) -> (String, Vec<(String, String)>) {
             break;
         }
     }
+    // second entry point: FlightDataDecoder directly (payload kinds per frame), ready vs lazy
+    let raw_ready = flight_decode_raw(&frames, &[]);
+    let raw_lazy = flight_decode_raw(&frames, &pend);
+    if raw_ready != raw_lazy {
+        fails.push((format!("FlightDataDecoder lazy {:?} {} != ready {:?} {}", raw_lazy.0, raw_lazy.1.short(), raw_ready.0, raw_ready.1.short()), "oracle:chunk-dep".to_string()));
+    }
+    if raw_ready.1.verdict == "ok" && ready.verdict == "ok" && raw_ready.1.batches != ready.batches {
+        fails.push((format!("FlightDataDecoder {} != FlightRecordBatchStream {}", raw_ready.1.short(), ready.short()), "oracle:two-entry".to_string()));
+    }
     // as an IPC stream: given chunking, single chunk, byte-wise; only meaningful when every frame
     // carries a valid message (the flight decoder skips nothing either)
     let ipc_given = flight_as_ipc(&frames, &sizes);
@@ -421,19 +766,35 @@ fn run_flight(t: &[&str]) -> (String, Vec<(String, String)>) {
 }
 
 fn gen_flight(rng: &mut Rng) -> (String, String) {
-    let schema = Arc::new(Schema::new(vec![Field::new("id", DataType::Int64, true), Field::new("s", DataType::Utf8, true)]));
+    let dict = rng.chance(1, 3);
+    let sfield = if dict {
+        Field::new("s", DataType::Dictionary(Box::new(DataType::Int8), Box::new(DataType::Utf8)), true)
+    } else {
+        Field::new("s", DataType::Utf8, true)
+    };
+    let schema = Arc::new(Schema::new(vec![Field::new("id", DataType::Int64, true), sfield]));
     let nb = rng.usize(4);
     let mut batches = vec![];
     for _ in 0..nb {
         let n = *rng.pick(&[0usize, 1, 3, 9, 40]);
         let ids: Vec<Option<i64>> = (0..n).map(|_| if rng.chance(1, 5) { None } else { Some(rng.range(-50, 50)) }).collect();
         let ss: Vec<Option<String>> = (0..n).map(|_| if rng.chance(1, 5) { None } else { Some("y".repeat(rng.usize(6))) }).collect();
-        let cols: Vec<ArrayRef> = vec![Arc::new(Int64Array::from(ids)), Arc::new(StringArray::from(ss))];
+        let scol: ArrayRef = if dict {
+            let d: arrow_array::DictionaryArray<arrow_array::types::Int8Type> = ss.iter().map(|x| x.as_deref()).collect();
+            Arc::new(d)
+        } else {
+            Arc::new(StringArray::from(ss))
+        };
+        let cols: Vec<ArrayRef> = vec![Arc::new(Int64Array::from(ids)), scol];
         batches.push(RecordBatch::try_new(schema.clone(), cols).unwrap());
     }
     let max = *rng.pick(&[64usize, 200, 2 * 1024 * 1024]);
     let mut tags = vec!["op:flight".to_string(), format!("max:{}", max)];
+    if dict {
+        tags.push("dict:resend".into());
+    }
     let enc = FlightDataEncoderBuilder::new()
+        .with_dictionary_handling(if dict { DictionaryHandling::Resend } else { DictionaryHandling::Hydrate })
         .with_max_flight_data_size(max)
         .with_schema(schema.clone())
         .build(futures::stream::iter(batches.into_iter().map(Ok)));
@@ -505,8 +866,18 @@ fn main() {
     } else {
         let mut rng = Rng::new(args.seed ^ 0xC14A);
         let n = n_cases(&args, 400, 8000);
+        // fixed deterministic block (same in every run), then the random cases
+        let mut fixed_rng = Rng::new(0xC14F);
+        for k in 0..24 {
+            let (line, tags) = gen_avrod(&mut fixed_rng, Some(k));
+            emit(&mut sink, line, tags);
+        }
         for i in 0..n {
-            let (line, tags) = if i % 8 < 5 { gen_case(&mut rng) } else { gen_flight(&mut rng) };
+            let (line, tags) = match i % 10 {
+                0..=4 => gen_case(&mut rng),
+                5..=7 => gen_flight(&mut rng),
+                _ => gen_avrod(&mut rng, None),
+            };
             emit(&mut sink, line, tags);
         }
     }
